@@ -20,7 +20,9 @@ RULE = ('Hypothesis documents (profiles "full" with 4 encodings and "agnostic" w
         'each single option alone must equal its own transformation; explicit-default calls must equal the omitted call '
         'byte for byte; one Exporter object reused for all option sets of a document, an ExportOptions object used for '
         'other documents before, and kernpy.dump to a file must give the same texts as dumps; barline rows may be '
-        'partially invisible ("=1-" in some spines only).  An evaluation is one (document, option set); non-trivial when at least two of the three options '
+        'partially invisible ("=1-" in some spines only); profile "noclef": documents without any clef exported in the '
+        'agnostic encodings under selections that leave no pitch (PITCH excluded, non-kern spines only, include lists '
+        'without PITCH) - option sets that leave a pitch are skipped there.  An evaluation is one (document, option set); non-trivial when at least two of the three options '
         'are non-default and each of them changes the output on its own.')
 ASSUMPTIONS = ['kv/xform.py (P, F, T) as validated by C04-C06 and C10', 'placeholders "." and "*" are interchangeable']
 
@@ -45,6 +47,24 @@ def option_sets(draw, ntypes, types, encs):
 
 @st.composite
 def cases(draw, prof):
+    if prof == 'noclef':
+        # no clef anywhere: an agnostic export is still defined whenever the selection leaves no pitch to convert
+        from .. import grammar as G
+        doc = draw(D.documents(D.profile('full', kern_weight=2, hidden_bars=True)))
+        for row in doc['rows']:
+            if 'c' in row:
+                row['c'] = [G.nullinterp_cell() if c['k'] == 'interp' and c.get('sig') == 'clef' else c for c in row['c']]
+        opts = [draw(option_sets(len(doc['types']), doc['types'], ['akern', 'aekern'])) for _ in range(8)]
+        nonkern = sorted({t for t in doc['types'] if t not in ('**kern', '**root')})
+        for i, o in enumerate(opts):
+            o['enc'] = o['enc'] or ('akern', 'aekern')[i % 2]
+            if i % 3 == 0:
+                o['exc'] = sorted(set(o['exc'] or []) | {'PITCH'})
+            elif i % 3 == 1 and nonkern:
+                o['tys'] = nonkern[:2]
+            elif o['inc'] is None:
+                o['inc'] = ['DURATION', 'BARLINES', 'HEADER', 'LYRICS']
+        return {'doc': doc, 'opts': opts, 'prof': prof}
     doc = draw(D.documents(D.profile(prof, kern_weight=2 if prof == 'sep' else 3, hidden_bars=True)))
     encs = list(K.ENCODINGS) if prof == 'agnostic' else ['kern', 'ekern', 'bkern', 'bekern']
     opts = [draw(option_sets(len(doc['types']), doc['types'], encs)) for _ in range(8)]
@@ -121,6 +141,7 @@ def check(case):
         raise Bad('reused-options', f'a default ExportOptions object used for another document before gives a different export than dumps(doc)\n--- dumps\n{default_text}--- reused options\n{via_opts}')
     if before != after:
         raise Bad('options-mutated', f'export_string rewrote the caller\'s ExportOptions: {before} -> {after}')
+    classes_extra = set()
     for oi, o in enumerate(case['opts']):
         enc = o['enc'] or 'kern'
         sel = cats.selected(o['inc'], o['exc'])
@@ -130,11 +151,17 @@ def check(case):
         fF = lambda r: X.F(r, sel)  # noqa
         fT = lambda r: X.T(r, enc)  # noqa
         renders = []
-        for order in itertools.permutations((fP, fF, fT)):
-            r = base
-            for f in order:
-                r = f(r)
-            renders.append(X.render(r))
+        try:
+            for order in itertools.permutations((fP, fF, fT)):
+                r = base
+                for f in order:
+                    r = f(r)
+                renders.append(X.render(r))
+        except Bad as b_:
+            if case['prof'] == 'noclef' and b_.sig == 'no-clef':
+                classes_extra.add('pitch-without-clef-skipped')  # a pitch is left and there is no clef: not defined
+                continue
+            raise
         if any(r != renders[0] for r in renders[1:]):
             raise Bad('harness-orders-disagree', 'kv/xform.py: the six composition orders disagree (harness defect)')
         kw = kwargs_for(o, kdoc, explicit=True)
@@ -153,7 +180,7 @@ def check(case):
         if got_shared != got:
             raise Bad('shared-exporter', f'a reused Exporter object gives a different export for ({tag}) than kernpy.dumps\n--- dumps\n{got}--- reused Exporter\n{got_shared}', opts=o)
         if oi % 3 == 0:
-            got_file = K.via_dump_file(kdoc, **kw)
+            got_file = K.via_dump_file(kdoc, expect=got, **kw)
             evals += 1
             if got_file != got:
                 raise Bad('dump-file', f'kernpy.dump({tag}) writes a different text than kernpy.dumps returns\n--- dumps\n{got}--- file\n{got_file}', opts=o)
@@ -170,7 +197,9 @@ def check(case):
                 raise Bad('explicit-default', f'explicit defaults {o["explicit"]} change the output: dumps({tag}) != dumps({K._kwrepr(kw2)})\n--- explicit\n{got}--- omitted\n{got2}', opts=o)
         # each option alone
         singles = []
-        if case['prof'] == 'sep':
+        if case['prof'] in ('sep', 'noclef'):
+            if case['prof'] == 'noclef':
+                keys.append([text, sorted(o['ids']) if o['ids'] is not None else None, o['tys'], sorted(sel), enc])
             continue  # the single-option clauses compare with the kern text of the model, which KF-SEP alters
         if ids is not None or tys is not None:
             kw1 = {k: v for k, v in kwargs_for(o, kdoc, False).items() if k in ('spine_ids', 'spine_types')}
@@ -197,7 +226,7 @@ def check(case):
             singles.append(g1 != default_text)
         if len(singles) >= 2 and sum(singles) >= 2:
             keys.append([text, sorted(o['ids']) if o['ids'] is not None else None, o['tys'], sorted(sel), enc])
-    r = Result(nontrivial=bool(keys), classes=K.doc_classes(doc, a) + ['profile=' + case['prof']], evals=evals,
+    r = Result(nontrivial=bool(keys), classes=K.doc_classes(doc, a) + ['profile=' + case['prof']] + sorted(classes_extra), evals=evals,
                sample={'document': text, 'options': case['opts'][:2]})
     r.keys = keys
     return r
@@ -208,6 +237,7 @@ def run(ctx):
     ctx.run_hypothesis(cases('full'), check, max_examples=n, label='full')
     ctx.run_hypothesis(cases('agnostic'), check, max_examples=n, salt=1, label='agnostic')
     ctx.run_hypothesis(cases('sep'), check, max_examples=max(12, n // 3), salt=2, label='separator-characters-in-text')
+    ctx.run_hypothesis(cases('noclef'), check, max_examples=max(12, n // 3), salt=3, label='agnostic-without-clef-and-without-pitch')
 
 
 def replay(case):
